@@ -1377,6 +1377,13 @@ class SpaceManager(SharedSpaceOperations):
 
         # FIX: Creating a Cells of the same name in ``space``
 
+        if name is None and formula is not None:
+            # The cells will be named after its formula:
+            # that name must be as free as a given one
+            fname = Formula(formula).name
+            if is_valid_name(fname):
+                name = fname
+
         if not self._can_add(space, name, CellsImpl):
             raise ValueError("Cannot create cells '%s'" % name)
 
